@@ -480,6 +480,74 @@ pub fn run(env: &Env, run: &Run) -> (Stats, Coverage) {
             }
         }));
     }
+    // (b4') the same two-call histories on LONG labels: a 72-byte prefix of one UTF-8 width (72 x 1,
+    // 36 x 2, 24 x 3, 18 x 4 bytes), a short core, optionally an ASCII tail - label A at a position
+    // inside its core, then label B (another prefix width and another core of the same byte length)
+    // in the same allocation at a position inside its core. A position cursor remembered between
+    // calls (keyed by address and length, used only for labels long enough to be worth it) is
+    // stale in characters or in bytes for one of the two orders of every pair of widths.
+    {
+        let hs4: Vec<char> = [0x6Cu32, 0xB7, 0xE9, ZWJ, VIRAMA, 0x65E5, 0x5D0, 0x5F3].iter().map(|c| char::from_u32(*c).unwrap()).collect();
+        let cores: Vec<String> = all_strings(&hs4, 2);
+        let prefixes: Vec<String> = [('a', 72usize), ('\u{E9}', 36), ('\u{65E5}', 24), ('\u{10400}', 18)].iter().map(|(c, n)| std::iter::repeat(*c).take(*n).collect()).collect();
+        let mut long: Vec<(String, usize, usize)> = Vec::new(); // label, first core position, core length
+        for p in &prefixes {
+            for c in &cores {
+                for tail in ["", "aaaaaaa"] {
+                    long.push((format!("{}{}{}", p, c, tail), p.chars().count(), c.chars().count()));
+                }
+            }
+        }
+        let mut by_len: std::collections::BTreeMap<usize, Vec<&(String, usize, usize)>> = std::collections::BTreeMap::new();
+        for x in &long {
+            by_len.entry(x.0.len()).or_default().push(x);
+        }
+        let groups: Vec<Vec<&(String, usize, usize)>> = by_len.into_values().filter(|g| g.len() >= 2).collect();
+        let shards: Vec<Stats> = {
+            use rayon::prelude::*;
+            groups
+                .par_iter()
+                .map(|g| {
+                    let mut st = Stats::default();
+                    let mut buf = String::with_capacity(128);
+                    for a in g.iter() {
+                        let la: Vec<u32> = a.0.chars().map(|c| c as u32).collect();
+                        let ras = rules_present(&la);
+                        if ras.is_empty() {
+                            continue;
+                        }
+                        for b in g.iter() {
+                            if a.0 == b.0 {
+                                continue;
+                            }
+                            let lb: Vec<u32> = b.0.chars().map(|c| c as u32).collect();
+                            for &ra in &ras {
+                                for rb in rules_present(&lb) {
+                                    for p in a.1..a.1 + a.2 {
+                                        for q in b.1..b.1 + b.2 {
+                                            st.states += 1;
+                                            st.transitions += 2;
+                                            buf.clear();
+                                            buf.push_str(&a.0);
+                                            check_rule(env, ra, &la, &buf, p, &mut st);
+                                            buf.clear();
+                                            buf.push_str(&b.0);
+                                            check_rule(env, rb, &lb, &buf, q, &mut st);
+                                        }
+                                    }
+                                }
+                            }
+                        }
+                    }
+                    st.count("out:long-two-call-histories");
+                    st
+                })
+                .collect()
+        };
+        for x in shards {
+            st.merge(x);
+        }
+    }
     // (b5) long runs of transparent characters on both sides of ZWNJ
     {
         let ends: [u32; 6] = [D, L, R, 0x61, VIRAMA, T];
